@@ -112,6 +112,9 @@ def patch_host(host):
         sys.byteorder = host['byteorder']       # what a big-endian host reports (struct's native formats are not modelled)
     if host.get('platform'):
         sys.platform = host['platform']
+    if host.get('c_long_bits') == 32:
+        import ctypes
+        ctypes.c_long, ctypes.c_ulong = ctypes.c_int32, ctypes.c_uint32
 
 
 def run_isolated(req):
@@ -294,7 +297,7 @@ HOST_B = {'name': 'platform-B', 'errorcode': {str(i): 'EB%d' % i for i in range(
           'Signals': {str(i): 'SIGB%d' % i for i in range(1, 65)},
           'AddressFamily': {str(i): 'AF_B%d' % i for i in range(0, 64)},
           'SocketKind': {str(i): 'SOCK_B%d' % i for i in range(1, 16)}, 'SOL_SOCKET': 0xffff, 'shift_constants': 1000,
-          'byteorder': 'big', 'platform': 'platform-b'}
+          'byteorder': 'big', 'platform': 'platform-b', 'c_long_bits': 32}
 WORDS = [0, 1, 2, 3, 5, 0x1a4, 0x1000, 0x7fffffff, 0x80000000, 0xffffffff, 1 << 63, (1 << 64) - 1, 0x0102030405060708]
 
 
@@ -327,11 +330,12 @@ def do_decoder_property_search(req):
     def found(what, request, extra=None):
         return {'tried': tried, 'bound': 'START x END windows over %d boundary words and random words, %d decoders' % (len(WORDS), len(names)),
                 'found': dict(extra or {}, violates=True, what=what, request=request)}
+    RETS = [0, 1, 3, 4096, (1 << 64) - 1, 0x0102030405060708, 1 << 63, 0x80000000]
     for name in names:
-        for rep in range(req.get('per_decoder', 6)):
+        for rep in range(req.get('per_decoder', 16 if pid == 'C10' else 6)):
             start = [rnd.choice(WORDS + [rnd.getrandbits(64)]) for _ in range(4)] if rep else [1, 2, 3, 4]
-            err = [0, 0, 2, 13, 1, 200][rep % 6]
-            end = [err, rnd.choice([0, 1, 3, 4096, (1 << 64) - 1, 0x0102030405060708]), rnd.choice([0, 77]), rnd.choice([0, 1234])]
+            err = [0, 0, 2, 13, 1, 200][rep % 6] if pid != 'C10' else ([0] * 8 + [2, 13, 1, 200, 0xffffffff, 1 << 32, 35, 102])[rep % 16]
+            end = [err, RETS[rep % 8] if pid == 'C10' else rnd.choice(RETS), rnd.choice([0, 77]), rnd.choice([0, 1234])]
             tried += 1
             if pid == 'C07':
                 for shape in ('pair', 'end-only', 'start-only', 'bare', 'nested', 'text-full', 'text-full-end'):
@@ -386,4 +390,37 @@ def do_decoder_property_search(req):
     return {'tried': tried, 'bound': 'START x END windows over boundary words, %d decoders' % len(names), 'found': None}
 
 
-HANDLERS = {'decoder_property_search': do_decoder_property_search, 'decoder_raw': run_decoder, 'decoder': do_decoder, 'decoder_result': do_decoder_result, 'decoder_pair': do_decoder_pair, 'decoder_slot': do_decoder_slot}
+def do_host_call(req):
+    """one call of a repository function under a swapped host model (own interpreter)"""
+    import importlib
+    from pyvc.native import dec
+    patch_host(req['host'])
+    m = importlib.import_module(req['module'])
+    o = m
+    for part in req['func'].split('.'):
+        o = getattr(o, part)
+    try:
+        return {'result': repr(o(*dec(req['args']))), 'raised': None}
+    except BaseException as e:  # noqa
+        return {'result': None, 'raised': '%s: %s' % (type(e).__name__, e)}
+
+
+def do_host_call_pair(req):
+    import json
+    import os
+    import subprocess
+    here = os.path.join(os.path.dirname(os.path.abspath(__file__)), 'native.py')
+    outs = []
+    for h in (req['a'], req['b']):
+        p = subprocess.run([sys.executable, here], input=json.dumps({'kind': 'host_call', 'host': h, 'module': req['module'], 'func': req['func'],
+                                                                     'args': req['args']}), capture_output=True, text=True, timeout=60)
+        try:
+            outs.append(json.loads(p.stdout.strip().splitlines()[-1]))
+        except Exception:
+            outs.append({'error': p.stderr[-300:]})
+    viol = outs[0] != outs[1] and not any('error' in o for o in outs)
+    return {'a': outs[0], 'b': outs[1], 'violates': viol,
+            'what': 'the same call gives %s on one host and %s on another' % (str(outs[0])[:150], str(outs[1])[:150]) if viol else ''}
+
+
+HANDLERS = {'host_call': do_host_call, 'host_call_pair': do_host_call_pair, 'decoder_property_search': do_decoder_property_search, 'decoder_raw': run_decoder, 'decoder': do_decoder, 'decoder_result': do_decoder_result, 'decoder_pair': do_decoder_pair, 'decoder_slot': do_decoder_slot}
